@@ -56,8 +56,8 @@ func buildC11Table(rng *gen.RNG) []c11Op {
 		texts []string
 	}
 	var secrets []sec
-	for i := 0; i < 8; i++ {
-		key := rng.Bytes([]int{20, 32, 64, 1, 10, 65, 129, 0}[i])
+	for i := 0; i < 10; i++ {
+		key := rng.Bytes([]int{20, 32, 64, 1, 10, 65, 129, 0, 200, 300}[i])
 		enc := ref.Base32Encode(key)
 		secrets = append(secrets, sec{key, []string{enc, gen.Spell(rng, enc, 5), gen.Spell(rng, enc, 13+i)}})
 	}
@@ -653,7 +653,7 @@ func init() {
 	}
 	register(&Prop{
 		ID: "C11",
-		Rule: "each configuration (goroutines 1..64 x GOMAXPROCS 1..16 x yield injection between pool Get and Put via the HMAC-constructor hook x adversarial pool user scribbling over pooled buffers x GC storm) runs in its own -race child process: a hot table of ~450 operations (HOTP/TOTP/OCRA generation and validation with messages below and above the pooled 256 bytes, suite lookups and parsing, secret decoding, URLs, helpers) over 8 secrets is first run alone, then hammered concurrently; every result is compared with the reference / called-alone value, retained code strings are re-checked after GCs and further calls, and race-detector reports are read from the child's log; " +
+		Rule: "each configuration (goroutines 1..64 x GOMAXPROCS 1..16 x yield injection between pool Get and Put via the HMAC-constructor hook x adversarial pool user scribbling over pooled buffers x GC storm) runs in its own -race child process: a hot table of ~460 operations (a rolling family of 3000 distinct suite strings each compared with its reference parse, HOTP/TOTP/OCRA generation and validation with messages below and above the pooled 256 bytes, suite lookups and parsing, secret decoding, URLs, helpers) over 8 secrets is first run alone, then hammered concurrently; every result is compared with the reference / called-alone value, retained code strings are re-checked after GCs and further calls, and race-detector reports are read from the child's log; " +
 			"distinct_nontrivial counts distinct (configuration, table operation) pairs executed concurrently and compared (observed.concurrent_results_compared is the number of results compared)",
 		Run: func(c *Ctx) {
 			cfgs := c11Configs(c)
